@@ -1,3 +1,201 @@
-import Sbdf.Slice
+/-
+  C09 — Structural corruption is reported with the matching status code.
+  One decision theorem per validation site ("decision logic stated outright"), in the form
+  `FailsWith p bs s`: in any context, reader `p` positioned at bytes `bs` fails with status `s`;
+  failures propagate unchanged through every composite reader (`P.bind` returns the first error).
+  Plus, from the regenerated tables: every status the library can return has its own text.
+-/
+import Sbdf.Lemmas.ReadsTM
+import Sbdf.Props.C05
+import Sbdf.Gen.Tables
 namespace Sbdf.C09
+open Spec
+
+/-- in any context, `p` positioned at `bs` fails with status `s` -/
+def FailsWith (p : P α) (bs : Bytes) (s : Status) : Prop :=
+  ∀ pre rest : Bytes, p (pre ++ bs ++ rest).toArray pre.length = .error (.st s)
+
+theorem FailsWith.fail (s : Status) : FailsWith (P.fail s : P α) [] s := by intro pre rest; rfl
+
+/-- first-error propagation: what was read successfully before does not matter -/
+theorem FailsWith.after {p : P α} {f : α → P β} {bs cs : Bytes} {a : α} {s : Status}
+    (hp : Reads p bs a) (hf : FailsWith (f a) cs s) : FailsWith (P.bind p f) (bs ++ cs) s := by
+  intro pre rest
+  have h1 := hp pre (cs ++ rest)
+  have h2 := hf (pre ++ bs) rest
+  simp only [List.append_assoc, List.length_append] at h1 h2 ⊢
+  simp only [P.bind, h1, h2]
+
+theorem FailsWith.after_nil {p : P α} {f : α → P β} {bs : Bytes} {a : α} {s : Status}
+    (hp : Reads p bs a) (hf : FailsWith (f a) [] s) : FailsWith (P.bind p f) bs s := by
+  have := FailsWith.after hp hf; simpa using this
+
+/-- ... and an error inside the first part is the error of the whole -/
+theorem FailsWith.first {p : P α} {f : α → P β} {bs : Bytes} {s : Status}
+    (hp : FailsWith p bs s) : FailsWith (P.bind p f) bs s := by
+  intro pre rest; simp only [P.bind, hp pre rest]
+
+/-! ### markers and section ids -/
+
+theorem bad_magic0 (b0 : UInt8) (h : b0 ≠ 0xdf) : FailsWith secRead [b0] .magicMissing := by
+  unfold secRead; simp only [P.bind_def]
+  have hn : b0.toNat ≠ 0xdf := by
+    intro e; apply h; exact UInt8.toNat_inj.mp (by simpa using e)
+  refine FailsWith.after_nil (reads_int8_lit b0) ?_
+  simp only [hn, ne_eq, not_false_eq_true, if_true]; exact FailsWith.fail _
+
+theorem bad_magic1 (b1 : UInt8) (h : b1 ≠ 0x5b) : FailsWith secRead [0xdf, b1] .magicMissing := by
+  unfold secRead; simp only [P.bind_def]
+  have hn : b1.toNat ≠ 0x5b := by
+    intro e; apply h; exact UInt8.toNat_inj.mp (by simpa using e)
+  refine FailsWith.after (bs := [0xdf]) (cs := [b1]) (reads_int8_lit 0xdf) ?_
+  simp only [show (0xdf : UInt8).toNat = 0xdf from rfl, ne_eq, not_true_eq_false, if_false]
+  refine FailsWith.after_nil (reads_int8_lit b1) ?_
+  simp only [hn, ne_eq, not_false_eq_true, if_true]; exact FailsWith.fail _
+
+/-- a wrong section kind where a specific section is expected -/
+theorem wrong_section (want got : Nat) (hg : got < 256) (h : got ≠ want) :
+    FailsWith (secExpect want) (sec got) .unexpectedSection := by
+  unfold secExpect; simp only [P.bind_def]
+  refine FailsWith.after_nil (reads_secRead got hg) ?_
+  simp only [h, ne_eq, not_false_eq_true, if_true]; exact FailsWith.fail _
+
+/-- in slice position: the end marker gives end-of-table, any id other than 3/5 unexpected-section -/
+theorem slice_position (c : Cfg) (n : Nat) (sub : Option (List Bool)) (id : Nat) (hid : id < 256) :
+    (id = 5 → Reads (readTS c n sub) (sec 5) none) ∧
+    (id ≠ 5 → id ≠ 3 → FailsWith (readTS c n sub) (sec id) .unexpectedSection) := by
+  refine ⟨fun _ => reads_tsEnd c n sub, ?_⟩
+  intro h5 h3
+  unfold readTS; simp only [P.bind_def]
+  refine FailsWith.after_nil (reads_secRead id hid) ?_
+  simp only [h5, if_false, h3, ne_eq, not_false_eq_true, if_true]; exact FailsWith.fail _
+
+/-- slice column count: negative → invalid-size; different from the metadata → column-count-mismatch -/
+theorem slice_column_count (c : Cfg) (n : Nat) (sub : Option (List Bool)) (cc : Int) (h32 : isInt32 cc) :
+    (cc < 0 → FailsWith (readTS c n sub) (sec 3 ++ le c cc) .invalidSize) ∧
+    (0 ≤ cc → cc ≠ n → FailsWith (readTS c n sub) (sec 3 ++ le c cc) .colCountMismatch) := by
+  constructor
+  · intro hneg
+    unfold readTS; simp only [P.bind_def]
+    refine FailsWith.after (reads_secRead 3 (by omega)) ?_
+    simp only [show ¬ (3 = 5) by omega, if_false, ne_eq, not_true_eq_false]
+    refine FailsWith.after_nil (reads_int32 c cc h32) ?_
+    simp only [hneg, if_true]; exact FailsWith.fail _
+  · intro h0 hne
+    unfold readTS; simp only [P.bind_def]
+    refine FailsWith.after (reads_secRead 3 (by omega)) ?_
+    simp only [show ¬ (3 = 5) by omega, if_false, ne_eq, not_true_eq_false]
+    have hnn : ¬ cc < 0 := by omega
+    refine FailsWith.after_nil (reads_int32 c cc h32) ?_
+    simp only [hnn, if_false, hne, not_false_eq_true, if_true]; exact FailsWith.fail _
+
+/-! ### negative counts and lengths -/
+
+/-- a negative element count (after the int32 was read) -/
+theorem negative_element_count (c : Cfg) (tid : Nat) (count : Int) (packed : Bool) (h : count < 0) :
+    FailsWith (readObjects c tid count packed) [] .invalidSize ∧ FailsWith (skipObjects c tid count packed) [] .invalidSize := by
+  constructor
+  · unfold readObjects; simp only [P.bind_def, h, if_true]; exact FailsWith.fail _
+  · unfold skipObjects; simp only [P.bind_def, h, if_true]; exact FailsWith.fail _
+
+theorem negative_array_count (c : Cfg) (tid : Nat) (count : Int) (h32 : isInt32 count) (h : count < 0) :
+    FailsWith (readObjArr c tid) (le c count) .invalidSize := by
+  unfold readObjArr; simp only [P.bind_def]
+  exact FailsWith.after_nil (reads_int32 c count h32) (negative_element_count c tid count true h).1
+
+/-- a negative string length (names of metadata entries and properties) -/
+theorem negative_string_length (c : Cfg) (l : Int) (h32 : isInt32 l) (h : l < 0) :
+    FailsWith (readString c) (le c l) .invalidSize ∧ FailsWith (skipString c) (le c l) .invalidSize := by
+  constructor
+  · unfold readString; simp only [P.bind_def]
+    refine FailsWith.after_nil (reads_int32 c l h32) ?_
+    simp only [h, if_true]; exact FailsWith.fail _
+  · unfold skipString; simp only [P.bind_def]
+    refine FailsWith.after_nil (reads_int32 c l h32) ?_
+    simp only [h, if_true]; exact FailsWith.fail _
+
+/-- a negative string/binary element length, in the int32 form and in the 7-bit form -/
+theorem negative_element_length (c : Cfg) (isStr : Bool) (l : Int) (h32 : isInt32 l) (h : l < 0) :
+    FailsWith (readElem c isStr false) (le c l) .invalidSize ∧ FailsWith (readElem c isStr true) (bytes7 l) .invalidSize := by
+  constructor
+  · unfold readElem; simp only [P.bind_def, Bool.false_eq_true, if_false]
+    refine FailsWith.after_nil (reads_int32 c l h32) ?_
+    simp only [h, if_true]; exact FailsWith.fail _
+  · unfold readElem; simp only [P.bind_def, if_true]
+    refine FailsWith.after_nil (reads_7bit l h32) ?_
+    simp only [h, if_true]; exact FailsWith.fail _
+
+/-- a negative table-metadata entry count -/
+theorem negative_entry_count (c : Cfg) (count : Int) (h32 : isInt32 count) (h : count < 0) :
+    FailsWith (readTM c) (sec 2 ++ le c count) .invalidSize := by
+  unfold readTM; simp only [P.bind_def]
+  refine FailsWith.after (reads_secExpect 2 (by omega)) ?_
+  refine FailsWith.after_nil (reads_int32 c count h32) ?_
+  simp only [h, if_true]; exact FailsWith.fail _
+
+/-! ### flags, type ids, encoding ids -/
+
+/-- a presence flag other than 0/1 on a table-level entry -/
+theorem bad_table_flag (c : Cfg) (vt : Nat) (flag : UInt8) (h0 : flag ≠ 0) (h1 : flag ≠ 1) :
+    FailsWith (readOptObj c vt true) [flag] .arrayLen1 := by
+  unfold readOptObj; simp only [P.bind_def]
+  have hn0 : flag.toNat ≠ 0 := fun e => h0 (UInt8.toNat_inj.mp (by simpa using e))
+  have hn1 : flag.toNat ≠ 1 := fun e => h1 (UInt8.toNat_inj.mp (by simpa using e))
+  refine FailsWith.after_nil (reads_int8_lit flag) ?_
+  simp only [hn0, ne_eq, not_false_eq_true, if_true, hn1, and_self]; exact FailsWith.fail _
+
+/-- an unknown value-type id on a value that is present -/
+theorem unknown_type_id (c : Cfg) (tid : Nat) (count : Int) (packed : Bool) (h0 : 0 ≤ count)
+    (harr : isArr tid = false) (hunk : ∀ n, fixedSize tid ≠ .ok n) :
+    FailsWith (readObjects c tid count packed) [] .unknownTypeid := by
+  unfold readObjects
+  have hc : ¬ count < 0 := by omega
+  simp only [P.bind_def, hc, if_false, harr, Bool.false_eq_true]
+  cases hf : fixedSize tid with
+  | ok n => exact absurd hf (hunk n)
+  | error e =>
+    have : e = .unknownTypeid := by
+      unfold fixedSize at hf
+      cases hu : unpackedSize tid with
+      | none => simp [hu] at hf; exact hf.symm
+      | some k => cases k with
+        | zero => simp [hu] at hf; exact hf.symm
+        | succ k => simp [hu] at hf
+    subst this
+    exact FailsWith.fail _
+
+/-- an unknown encoding id -/
+theorem unknown_encoding_id (c : Cfg) (e vt : UInt8) (h1 : e ≠ 1) (h2 : e ≠ 2) (h3 : e ≠ 3) :
+    FailsWith (readVA c) [e, vt] .unknownEncoding ∧ FailsWith (skipVA c) [e, vt] .unknownEncoding := by
+  have hn1 : e.toNat ≠ 1 := fun x => h1 (UInt8.toNat_inj.mp (by simpa using x))
+  have hn2 : e.toNat ≠ 2 := fun x => h2 (UInt8.toNat_inj.mp (by simpa using x))
+  have hn3 : e.toNat ≠ 3 := fun x => h3 (UInt8.toNat_inj.mp (by simpa using x))
+  constructor
+  · unfold readVA; simp only [P.bind_def]
+    refine FailsWith.after (bs := [e]) (cs := [vt]) (reads_int8_lit e) ?_
+    refine FailsWith.after (bs := [vt]) (cs := []) (reads_int8_lit vt) ?_
+    simp only [hn1, hn2, hn3, if_false]; exact FailsWith.fail _
+  · unfold skipVA; simp only [P.bind_def]
+    refine FailsWith.after (bs := [e]) (cs := [vt]) (reads_int8_lit e) ?_
+    refine FailsWith.after (bs := [vt]) (cs := []) (reads_int8_lit vt) ?_
+    simp only [hn1, hn2, hn3, if_false]; exact FailsWith.fail _
+
+/-- a run-length array whose row count differs from its runs: the first decode fails -/
+theorem rle_row_count_mismatch (c : Cfg) (rows : Int) (runs : Bytes) (vals : Obj) (sz : Nat)
+    (hsz : elemSizeOrPtr vals.tid = .ok sz) (hlen : runs.length = vals.count) (h : (rleTotal runs : Int) ≠ rows) :
+    getValues c (.rle rows runs vals) = .error (.st .invalidSize) := by
+  simp [getValues, hsz, hlen, h]
+
+/-! ### every status the library can return has its own textual description -/
+
+theorem returnable_have_text : ∀ r ∈ Gen.returnable, Gen.errStr r.2 ≠ Gen.errDefault := by decide
+
+theorem texts_distinct : (Gen.returnable.map (fun r => Gen.errStr r.2)).Nodup := by decide
+
+/-- the status macros the sources use are those of errors.h, with the values of the model -/
+theorem returnable_documented : ∀ r ∈ Gen.returnable, r ∈ Gen.statusMacros := by decide
+
+/-- non-vacuity -/
+example : secRead ([0xde, 0x5b, 3] : Bytes).toArray 0 = .error (.st .magicMissing) := rfl
+
 end Sbdf.C09
